@@ -134,3 +134,335 @@ def run(prog, rep):
     rep.rule('R15.1', 'SafeDurationCast (every instantiation): no signed overflow on any cell; a value is returned only unwrapped and equal to '
                       'count*num/den in exact arithmetic; otherwise std::out_of_range', floor=40)
     check_safe_duration_cast(prog, rep)
+    rep.rule('R15.2', 'SafeAddDuration (both overloads, every instantiation): bound computations and the final addition stay representable on every '
+                      'non-throwing path; the target becomes target + addend; only std::out_of_range is thrown', floor=20)
+    check_safe_add(prog, rep)
+    rep.rule('R15.3', 'every function of convert_chrono.h that uses std::from_chars: with ec = result_out_of_range every path throws '
+                      'std::out_of_range (or returns the failure value), with ec = invalid_argument std::invalid_argument; never a success outcome', floor=6)
+    from rules import errc_map
+    errc_map.check(prog, rep, 'R15.3', 'include/bitserializer/conversion_detail/convert_chrono.h', 3)
+    rep.rule('R15.4', 'ISO datetime parser: the six fields have the ISO ranges/delimiters; over every (year mod 400, month, day class) a combination '
+                      'is accepted iff it is a proleptic-Gregorian date; the text ends at Z', floor=9)
+    check_calendar(prog, rep)
+    rep.rule('R15.5', 'ISO duration parser: negating the parsed unsigned magnitude of a negative duration never overflows and never uses a wrapped value', floor=3)
+    check_negation(prog, rep)
+
+
+# ------------------------------------------------------------------------------------------------ R15.2 SafeAddDuration (linear)
+from bsv.linear import Lin, entails, eq, le, lt, unsat
+from bsv.linmodel import LinInterp, LinModel
+
+
+def rep_range(type_str):
+    m = re.search(r'std::chrono::duration<([^,<>]+)', type_str)
+    if not m:
+        return None
+    return interval.type_range(m.group(1).strip())
+
+
+class AddModel(LinModel):
+    def __init__(self, prog):
+        self.prog = prog
+
+    def initial_store(self, it, key):
+        if key == 'out.target':
+            return Lin.sym('T')
+        return TOP
+
+    def in_range(self, it, fr, n, what, v, type_str):
+        r = rep_range(type_str)
+        if r is None:
+            raise AnalysisBroken('R15.2: cannot find the representation of %s' % type_str[:80])
+        return self.need(it, fr, n, what, [le(r[0], v), le(v, r[1])])
+
+    def primitive(self, it, fr, n, callee, depth):
+        q = strip_targs(callee['q'])
+        name = callee['n']
+        obj, args = it.call_args(fr, n)
+        if name == 'SafeDurationCast':
+            it.ev(fr, args[0], depth)
+            if it.choose('CAST THROWS'):
+                raise Thrown('std::out_of_range')
+            r = rep_range(fr.f.type(n))
+            a = self.fresh(it, 'A', r[0], r[1])
+            return a
+        if q.startswith('std::chrono::'):
+            if name == 'count':
+                v = it.ev(fr, obj, depth)
+                if isinstance(v, Sym) and v.tag == 'SRC':
+                    return Sym('SRCCOUNT')
+                return v
+            if name in ('max', 'min') and ('time_point' in q or 'duration' in q) and not args:
+                r = rep_range(callee['q'])
+                return Lin.of(r[1] if name == 'max' else r[0])
+            if name in ('operator-', 'operator+'):
+                a, b = [Lin.of(it.ev(fr, x, depth)) for x in args[:2]] if obj is None else [Lin.of(it.ev(fr, obj, depth)), Lin.of(it.ev(fr, args[0], depth))]
+                if a is None or b is None:
+                    raise AnalysisBroken('R15.2: untracked chrono operand at %s' % fr.f.loc(n))
+                v = a + b if name == 'operator+' else a - b
+                self.in_range(it, fr, n, '%s result is representable' % name, v, fr.f.type(n))
+                return v
+            if name in ('operator>', 'operator<', 'operator>=', 'operator<=', 'operator==', 'operator!='):
+                a, b = [it.ev(fr, x, depth) for x in args[:2]]
+                return self.compare(it, fr, n, name[8:], a, b)
+            if name == 'operator+=':
+                key = it.lvalue(fr, obj, depth)
+                a, b = Lin.of(it.ev(fr, obj, depth)), Lin.of(it.ev(fr, args[0], depth))
+                v = a + b
+                self.in_range(it, fr, n, 'operator+= result is representable', v, fr.f.type(obj))
+                it.write_key(fr, key, v)
+                return v
+            if name == 'operator=':
+                key = it.lvalue(fr, obj, depth)
+                v = it.ev(fr, args[0], depth)
+                if key is not None:
+                    it.write_key(fr, key, v)
+                return v
+            for a in args:
+                it.ev(fr, a, depth)
+            return TOP
+        if not callee.get('repo'):
+            for a in args:
+                it.ev(fr, a, depth)
+            return TOP
+        return NotImplemented
+
+    def compare(self, it, fr, n, op, a, b):
+        for x, y in ((a, b), (b, a)):
+            if isinstance(x, Sym) and x.tag == 'SRCCOUNT':
+                return Sym(('GUARD', 'SRC %s 0' % op))
+        return LinModel.compare(self, it, fr, n, op, a, b)
+
+    def construct(self, it, fr, n, depth):
+        vals = [it.ev(fr, a, depth) for a in n.get('c', ())]
+        t = fr.f.type(n)
+        if 'std::chrono::' in t:
+            if not vals:
+                return Lin.of(0)
+            v = Lin.of(vals[0])
+            if v is not None:
+                self.in_range(it, fr, n, 'converted value fits the target representation', v, t)
+                return v
+        return vals[0] if len(vals) == 1 else TOP
+
+
+class AddInterp(LinInterp, Interp):
+    pass
+
+
+def check_safe_add(prog, rep):
+    fs = [f for f in prog.funcs.values() if strip_targs(f.q) == DET + 'SafeAddDuration' and f.body is not None]
+    if len(fs) < 6:
+        raise AnalysisBroken('R15.2: only %d instantiations of SafeAddDuration' % len(fs))
+    for f in sorted(fs, key=lambda g: g.id):
+        ttype = f.type(f.params[0])
+        r = rep_range(ttype)
+        if r is None:
+            continue
+        rep.touch(f)
+        model = AddModel(prog)
+        it = AddInterp(prog, model, max_depth=1, max_paths=200)
+        T = Lin.sym('T')
+
+        def init(it_, fr):
+            it_.n_fresh = 0
+            it_.facts = [le(r[0], T), le(T, r[1])]
+            fr.alias[f.params[0]['d']] = 'out.target'
+            fr.env[f.params[1]['d']] = Sym('SRC')
+        short = re.sub(r'std::chrono::(_V2::)?', '', f.id.split('|')[0].replace(DET, ''))[:150]
+        agg = {}
+        n_ret = 0
+        for p in it.run(f, init):
+            it.path, it.facts = p, p.facts
+            cns = model.cons(it)
+            if unsat(cns):
+                continue
+            for a in p.actions:
+                if a[0] == 'NEED':
+                    agg.setdefault((a[1], a[2]), []).append(a[3])
+            if p.outcome[0] == 'THROW':
+                if 'out_of_range' not in str(p.outcome[1]):
+                    agg.setdefault(('throws only std::out_of_range', f.loc()), []).append(False)
+                continue
+            n_ret += 1
+            t1 = Lin.of(p.store.get('out.target', T))
+            ok = t1 is not None and entails(cns, [le(r[0], t1), le(t1, r[1])])
+            agg.setdefault(('the stored sum fits the target representation', f.loc()), []).append(ok)
+            adds = [s for s in (t1.t if t1 is not None else {}) if s.startswith('A#')]
+            src0 = [d for l, d in p.guards if l == 'SRC == 0']
+            exact = (t1 is not None and ((src0 and src0[0] and t1.key() == T.key()) or (adds and t1.t.get('T') == 1 and t1.c == 0 and all(t1.t[a] == 1 for a in adds))))
+            agg.setdefault(('the target becomes target + addend', f.loc()), []).append(bool(exact))
+        if not n_ret:
+            raise AnalysisBroken('R15.2: no returning path through %s' % short)
+        for (what, where), oks in sorted(agg.items()):
+            if all(oks):
+                rep.ok('R15.2', '%s|%s|%s' % (short, what, where), sample={'function': short, 'obligation': what, 'paths': len(oks)})
+            else:
+                rep.finding('R15.2', '%s|%s' % (strip_targs(short), what), where, '%s: "%s" is not entailed on %d of %d feasible path(s) - the guarded '
+                            'addition can leave the representation' % (short, what, len([o for o in oks if not o]), len(oks)), func=f.id)
+
+
+# ------------------------------------------------------------------------------------------------ R15.4 calendar acceptance table
+def valid_date(y, m, d):
+    dim = [31, 29 if (y % 4 == 0 and (y % 100 != 0 or y % 400 == 0)) else 28, 31, 30, 31, 30, 31, 31, 30, 31, 30, 31]
+    return 1 <= m <= 12 and 1 <= d <= dim[m - 1]
+
+
+ISO_FIELDS = [('Year', None, None, '-'), ('Month', 1, 12, '-'), ('Day', 1, 'DIM', 'T'), ('Hour', 0, 23, ':'), ('Min', 0, 59, ':'), ('Sec', 0, 59, None)]
+
+
+def check_calendar(prog, rep):
+    outer = [f for f in prog.funcs.values() if f.name == 'operator()' and f.body is not None and 'convert_chrono.h' in f.id and 'CDateTimeParts' in f.id
+             and len(f.params) == 2 and any(n['k'] == 'ArraySubscriptExpr' for n in f.walk())]
+    if not outer:
+        raise AnalysisBroken('anchor vanished: parseDatetime lambda of ParseIsoUtc')
+    f = sorted(outer, key=lambda g: g.id)[0]
+    rep.touch(f)
+    dim = None
+    for key, gs in prog.globals.items():
+        if gs[0].get('q', '').endswith('Detail::DaysInMonth'):
+            dim = gs[0].get('val')
+    if not dim or len(dim) != 12:
+        raise AnalysisBroken('anchor vanished: DaysInMonth table')
+    # (1) field table from the call sites of the inner field parser
+    calls = []
+    for n in f.walk():
+        if n['k'] == 'CXXOperatorCallExpr' and (f.callee(n) or {}).get('n') == 'operator()' and len(n.get('c', [])) >= 5:
+            args = n['c'][2:]
+            tgt = [m.get('m') for m in f.walk(args[2]) if m['k'] == 'MemberExpr']
+            if not tgt:
+                continue
+
+            def const_of(a):
+                if a is None:
+                    return None
+                if any(x['k'] == 'ArraySubscriptExpr' for x in f.walk(a)):
+                    idx = [x for x in f.walk(a) if x['k'] == 'ArraySubscriptExpr'][0]
+                    names = [m.get('m') for m in f.walk(idx['c'][1]) if m['k'] == 'MemberExpr']
+                    off = [x for x in f.walk(idx['c'][1]) if x['k'] == 'BinaryOperator' and x.get('op') == '-' and strip(x['c'][1]).get('cv') == 1]
+                    return 'DIM' if names == ['Month'] and off else 'DIM?'
+                cvs = [x['cv'] for x in f.walk(a) if 'cv' in x and x['k'] in ('IntegerLiteral', 'CharacterLiteral')]
+                return cvs[0] if cvs else None
+            mn = const_of(args[3]) if len(args) > 3 else None
+            mx = const_of(args[4]) if len(args) > 4 else None
+            dl = const_of(args[5]) if len(args) > 5 else None
+            calls.append((tgt[0], mn, mx, chr(dl) if isinstance(dl, int) and dl else None, n))
+    got = [(c[0], c[1], c[2], c[3]) for c in calls]
+    for i, exp in enumerate(ISO_FIELDS):
+        g = got[i] if i < len(got) else None
+        if g == exp:
+            rep.ok('R15.4', 'field %s: range [%s, %s], delimiter %r' % exp, sample={'field': exp[0], 'min': exp[1], 'max': exp[2], 'delimiter': exp[3]})
+        else:
+            rep.finding('R15.4', 'field %d %s' % (i, exp[0]), f.loc(calls[i][4]) if i < len(calls) else f.loc(),
+                        'ISO datetime parser: field %d is parsed as %s, ISO 8601 / the documented format needs %s' % (i, g, exp), func=f.id)
+    exp_dim = [31, None, 31, 30, 31, 30, 31, 31, 30, 31, 30, 31]
+    for i in range(12):
+        if i != 1 and dim[i] != exp_dim[i]:
+            rep.finding('R15.4', 'DaysInMonth[%d]' % i, f.loc(), 'DaysInMonth[%d] is %d, the Gregorian calendar has %d' % (i, dim[i], exp_dim[i]), func=f.id)
+    # (2) acceptance of (year residue, month, day): day bound from the table plus the guards that mention utc.Year
+    guards = []
+    for n in f.walk():
+        if n['k'] == 'IfStmt':
+            c0 = child(n, 'cond')
+            names = set(m.get('m') for m in f.walk(c0) if m['k'] == 'MemberExpr')
+            if 'Year' in names and names <= {'Year', 'Month', 'Day'}:
+                th = [x for x in f.walk(child(n, 'then')) if x['k'] == 'CXXThrowExpr']
+                if th:
+                    guards.append((c0, 'invalid_argument' in f.type(strip(th[0]['c'][0])) if th[0].get('c') else False))
+    utc = [n for n in f.walk() if n['k'] == 'DeclRefExpr' and n.get('n') == 'utc']
+    if not utc:
+        raise AnalysisBroken('R15.4: local "utc" not found')
+    utc_d = utc[0]['d']
+    it = Interp(prog, Model(), max_depth=0)
+    it.path = type('P', (), {'actions': [], 'guards': []})()
+    it.decisions, it.dpos, it.new_choices, it.store, it.steps, it.off = [], 0, [], {}, 0, 0
+    from bsv.dtab import Frame
+    fr = Frame(f)
+    it.frames = {id(fr): fr}
+    bad_acc, bad_rej, n_cells = [], [], 0
+    for m in range(1, 13):
+        for d in (1, 28, 29, 30, 31, 32):
+            for y in list(range(-400, 401)):
+                st = Struct()
+                st.fields.update({'Year': y, 'Month': m, 'Day': d})
+                fr.env[utc_d] = st
+                acc = 1 <= d <= dim[m - 1]
+                for c0, is_inv in guards:
+                    it.steps = 0
+                    v = it.ev(fr, c0, 0)
+                    if not isinstance(v, (int, bool)):
+                        raise AnalysisBroken('R15.4: guard at %s is not decided for year %d, %02d-%02d' % (f.loc(c0), y, m, d))
+                    if v:
+                        acc = False
+                n_cells += 1
+                if acc and not valid_date(y, m, d):
+                    bad_acc.append((y, m, d))
+                if not acc and valid_date(y, m, d):
+                    bad_rej.append((y, m, d))
+    if bad_acc:
+        y, m, d = bad_acc[0]
+        rep.finding('R15.4', 'calendar|accepts a day that does not exist', f.loc(), 'ISO datetime parser accepts %d combination(s) of (year mod 400, month, day) '
+                    'that are not dates, e.g. year %d, %02d-%02d (the text then denotes no instant and is silently moved to another day)' % (len(bad_acc), y, m, d),
+                    func=f.id, count=len(bad_acc))
+    else:
+        rep.ok('R15.4', 'calendar|no non-existent day accepted', sample={'cells': n_cells, 'guards': len(guards), 'days_in_month': dim})
+    if bad_rej:
+        y, m, d = bad_rej[0]
+        rep.finding('R15.4', 'calendar|rejects a valid date', f.loc(), 'ISO datetime parser rejects %d valid (year mod 400, month, day) combination(s), e.g. '
+                    'year %d, %02d-%02d' % (len(bad_rej), y, m, d), func=f.id, count=len(bad_rej))
+    else:
+        rep.ok('R15.4', 'calendar|every valid date accepted', sample={'cells': n_cells})
+    # (3) the text must end right after 'Z'
+    tail = False
+    for n in f.walk():
+        if n['k'] == 'IfStmt':
+            c0 = child(n, 'cond')
+            lits = [x.get('cv') for x in f.walk(c0) if x['k'] == 'CharacterLiteral']
+            th = [x for x in f.walk(child(n, 'then')) if x['k'] == 'CXXThrowExpr']
+            if 90 in lits and th:
+                ops = [(x.get('op'), [y.get('n') for y in f.walk(x) if y['k'] == 'DeclRefExpr']) for x in f.walk(c0) if x['k'] == 'BinaryOperator' and x.get('op') in ('!=', '==')]
+                tail = any(op == '!=' and 'end' in names and any(y['k'] == 'BinaryOperator' and y.get('op') == '+' for y in f.walk(c0)) for op, names in ops)
+    if tail:
+        rep.ok('R15.4', "text ends right after 'Z'")
+    else:
+        rep.finding('R15.4', "trailing characters after 'Z'", f.loc(), "ISO datetime parser does not require the text to end after the closing 'Z'", func=f.id)
+
+
+# ------------------------------------------------------------------------------------------------ R15.5 negation of the parsed magnitude
+def check_negation(prog, rep):
+    fs = [f for f in prog.funcs.values() if f.name == 'operator()' and f.body is not None and 'convert_chrono.h' in f.id
+          and [p['n'] for p in f.params] == ['pos', 'end', 'isDatePart', 'isNegative', 'duration']]
+    if not fs:
+        raise AnalysisBroken('anchor vanished: parseNextPart lambda of the ISO duration parser')
+    n_ok = 0
+    for f in sorted(fs, key=lambda g: g.id):
+        ifs = [n for n in f.walk() if n['k'] == 'IfStmt' and (strip(child(n, 'cond')) or {}).get('n') == 'isNegative']
+        vals = [n for n in f.walk() if n['k'] == 'DeclRefExpr' and n.get('n') == 'value']
+        if not ifs or not vals:
+            raise AnalysisBroken('R15.5: "if (isNegative)" block not found in %s' % f.loc())
+        rep.touch(f)
+        vd = vals[0]['d']
+        neg_p = [p for p in f.params if p['n'] == 'isNegative'][0]
+
+        def setup(it, fr, cell):
+            fr.env[vd] = cell
+            fr.env[neg_p['d']] = 1
+            for p in f.params:
+                if p['n'] != 'isNegative':
+                    fr.env[p['d']] = TOP
+        cells = nowrap.explore(prog, f, 0, (1 << 64) - 1, setup, None, body=ifs[0], max_depth=0)
+        bad = []
+        for cell, paths in cells:
+            for p in paths:
+                for a in p.actions:
+                    if a[0] == 'OVERFLOW':
+                        bad.append('%s overflows for magnitudes in [%d, %d] (%s)' % (a[1], cell.lo, cell.hi, a[2]))
+                    if a[0] == 'WRAPCAST' and p.outcome[0] != 'THROW' and cell.lo != cell.hi:
+                        bad.append('a magnitude in [%d, %d] is converted to %s with a changed value and used (%s)' % (cell.lo, cell.hi, a[1], a[2]))
+        target = f.id.split('|')[0][-8:]
+        if bad:
+            rep.finding('R15.5', 'parseNextPart|negation', f.loc(ifs[0]), 'ISO duration parser, negative duration: %s' % sorted(set(bad))[0], func=f.id)
+        else:
+            n_ok += 1
+            rep.ok('R15.5', 'parseNextPart|negation|%s' % f.id[-60:], sample={'cells': [(c.lo, c.hi) for c, _ in cells][:6]})
+    return n_ok
